@@ -159,6 +159,7 @@ void SQuIDS::ini(unsigned int n, unsigned int nsu, unsigned int nrh, unsigned in
 
   is_init=true;
   SQUIDS_VERIF_EVENT("sq.ini",this,system.get(),nx*size_state,0);
+  SQUIDS_VERIF_EVENT("sq.ini.cache",this,last_dstate_ptr,last_estate_ptr!=nullptr,0);
 };
 
 void SQuIDS::set_system_pointers(double* sp, double* dp){
